@@ -27,7 +27,7 @@ from qiskit.synthesis import OneQubitEulerDecomposer
 from qiskit.circuit import Gate, Qubit
 
 from qclib.gates.mcx import LinearMcx, McxVchainDirty
-from qclib.gates.util import check_su2, apply_ctrl_state, isclose
+from qclib.gates.util import check_u2, check_su2, apply_ctrl_state, isclose
 
 # pylint: disable=protected-access
 
@@ -297,6 +297,7 @@ class LdMcSpecialUnitary(Gate):
 
     def __init__(self, unitary, num_controls, ctrl_state=None):
 
+        check_u2(np.array(unitary, dtype=complex))
         if not check_su2(unitary):
             raise ValueError("Operator must be in SU(2)")
 
